@@ -3,16 +3,16 @@
      - every file a fresh save produces (whole tree or any partial selection),
      - every file an append (C09's union) or an append-over (union + replace) of a whole tree leaves,
      - every file an append aimed inside a tree leaves: an inner node; the whole tree at an emdpath; an inner node with an
-       emdpath to itself or its parent; a foreign tree or inner node placed under an emdpath; append-over of an inner node and of the whole tree at an emdpath (closed
+       emdpath to itself or its parent; a foreign tree or inner node placed under an emdpath; append-over of an inner node (alone, with its branch, or the branch below it) and of the whole tree at an emdpath (closed
        forms of Proofs/PSubst.v),
      - every file of several trees, the file after any history of whole-tree saves (new trees, appends, append-overs in any
        order), and every list save (lists mixing roots, unrooted items and rooted nodes of several
        roots) into a fresh file or appended to a file of other trees;
    plus the individual layout facts (valid tags on every node group, tagged bundles of tagged typed items, the header
    passing the package detector, the bundle created by the append path tagged, no scratch group after a replace: C09/C18).
-   PARTIAL: the tree = False variant of append-over inside a tree, and list saves naming a root the file
-   already has are validated on real files by the harness after every successful save of every scenario, not by a theorem. *)
-From Emd Require Import Base.Prelude Model.H5 Model.Emd Generated.Tables Proofs.PTree Proofs.P05 Proofs.P20 Proofs.PRead Proofs.PUnion Proofs.PUnionAO Proofs.PWf Proofs.PMulti Proofs.PAfter Proofs.PMixed Proofs.PTarget Proofs.PSubst.
+   PARTIAL: list saves holding rooted items of a root the file already has are validated on real files by the harness
+   after every successful save of every scenario, not by a theorem. *)
+From Emd Require Import Base.Prelude Model.H5 Model.Emd Model.Reader Generated.Tables Proofs.PTree Proofs.P05 Proofs.P20 Proofs.PRead Proofs.PUnion Proofs.PUnionAO Proofs.PWf Proofs.PMulti Proofs.PAfter Proofs.PMixed Proofs.PTarget Proofs.PSubst.
 From Emd Require Import Model.EmdList.
 From Emd Require Generated.Version.
 
@@ -197,6 +197,18 @@ Theorem C05_the_file_after_an_appendover_of_the_branch_below_an_inner_node_passe
     exists f, append_existing root p (WA md None None) md (whole_file c0 m) = Ok f /\ wf_emd c0 f = true.
 Proof. exact wf_after_inner_node_appendover_branch. Qed.
 Print Assumptions C05_the_file_after_an_appendover_of_the_branch_below_an_inner_node_passes_the_validator.
+
+Theorem C05_the_file_after_an_appendover_of_an_inner_node_alone_passes_the_validator :
+  forall c0 m root q x pk km data md,
+    In md appendovermode ->
+    rcls m = CRoot -> rname root = rname m -> rmds root = [] -> ok_tree m ->
+    rwalk m q = Some pk -> rwalk m (q ++ [x]) = Some km ->
+    rwalk root (q ++ [x]) = Some data -> rname data = x ->
+    compat_ao (RN CNode "" 0%Z 0 [] [with_kids data []]) (shallow_links pk) (rkids pk) ->
+    plain_tree m -> plain (rname data) = true -> rname data <> "metadatabundle" -> rcls data <> CRoot ->
+    exists f, append_existing root (q ++ [x]) (WA md (Some false) None) md (whole_file c0 m) = Ok f /\ wf_emd c0 f = true.
+Proof. exact wf_after_inner_node_appendover_alone. Qed.
+Print Assumptions C05_the_file_after_an_appendover_of_an_inner_node_alone_passes_the_validator.
 
 Theorem C05_the_file_after_an_appendover_at_an_emdpath_passes_the_validator :
   forall c0 m root q x pk km data md,
